@@ -7,7 +7,6 @@ From GV Require Import Base.Ints Gen.Math Gen.Kernel Model.Mirror
   Proofs.MirrorResumeOps Proofs.MirrorResumeOps2 Proofs.MirrorResumeOps3.
 Import ListNotations.
 Local Open Scope N_scope.
-Set Default Timeout 60.
 
 (** * The commit-proof backfill of the committing view *)
 Lemma backfill_fold_ne keys h r entries : forall pc any pc' any',
